@@ -25,6 +25,7 @@ func TestCheck(t *testing.T) {
 		"DHCPv4 with a RADIUS client uses an in-process RADIUS responder on loopback; those parts run in child processes because the handler starts accounting goroutines",
 		"restart timers of the PPP automata set to 1h so that only the packet under test drives the automaton",
 		"the 'linear time' clause is checked only as: no call on a <=2 KiB input takes 10 s",
+		"every handler is enumerated under each configuration switch it branches on: DHCPv6 legacy/integrated/absent address and prefix back-ends (all 8 combinations used) x lease, DNS on/off; DHCPv4 loader nil/unloaded, RADIUS off/accept/reject/accounting-only, QoS+NAT managers, empty pool manager; PPPoE server with/without pool+DNS and with a RADIUS client; Authenticator with RADIUS accept/reject incl. the rate-limited state; IPCP static/pool/no peer address; LCP PAP/CHAP+PFC+ACFC; CoA default and application handlers. Not covered: DHCPv4 with Nexus client / HTTP allocator / peer pool (need an HTTP peer)",
 	}
 	ts := allTargets()
 	if *flagChild != "" {
